@@ -27,17 +27,18 @@ EXTENDS Integers, Sequences, FiniteSets, TLC, Json, IOUtils
 
 Trace == ndJsonDeserialize(IOEnv.TRACE)
 
-MaxO == 64
+MaxO == 48
 Brokers == 1 .. 5
 Topics == {"t1", "t2", "t3"} \cup { "new-" \o ToString(o) : o \in 1 .. MaxO }
 NParts == 2
 Reqs == 1 .. MaxO
-MaxConns == 48
+MaxConns == 40
 Boot == {}
 Cluster0 == [alive |-> {}, leader |-> << >>, coord |-> 0, txn |-> 0, ctrlr |-> 0, topics |-> {}]
 VTab == << >>
 CRange == << >>
 Menu == << >>
+MoveKinds == {"leader", "add", "remove", "topic", "coord", "txn", "ctrlr"}
 MaxMoves == 1000000
 MaxCancels == 1000000
 MaxCuts == 1000000
@@ -45,17 +46,18 @@ MaxRefresh == 1000000
 MaxExpire == 1000000
 MaxCloseIdle == 1000000
 Hist == TRUE
+AnyConnId == TRUE
 Bug == "none"
 
-VARIABLES cl, moves, snaps, pool, disc, conns, rq, sent, served, budget, cf, l, dialTo, replied, plan, over
+VARIABLES cl, moves, snaps, pool, disc, conns, rq, sent, served, budget, cf, l, dialTo, replied, wrote, plan, over
 M == INSTANCE Transport
 mvars == <<cl, moves, snaps, pool, disc, conns, rq, sent, served, budget, cf>>
-tvars == <<cl, moves, snaps, pool, disc, conns, rq, sent, served, budget, cf, l, dialTo, replied, plan, over>>
+tvars == <<cl, moves, snaps, pool, disc, conns, rq, sent, served, budget, cf, l, dialTo, replied, wrote, plan, over>>
 
 Range(s) == { s[i] : i \in DOMAIN s }
 TPs == { <<t, p>> : t \in Topics, p \in 0 .. NParts - 1 }
 
-TInit == M!Init /\ l = 1 /\ dialTo = << >> /\ replied = {} /\ plan = << >> /\ over = TRUE
+TInit == M!Init /\ l = 1 /\ dialTo = << >> /\ replied = {} /\ wrote = {} /\ plan = << >> /\ over = TRUE
 
 VT(v) == [ b \in { v[i].b : i \in DOMAIN v } |->
             LET apis == v[CHOOSE i \in DOMAIN v : v[i].b = b].apis IN
@@ -78,9 +80,9 @@ Reset(e) ==
   /\ conns' = [c \in 1 .. MaxConns |-> M!NoConn]
   /\ rq' = [r \in Reqs |-> M!NoReq]
   /\ sent' = << >> /\ served' = << >> /\ budget' = M!NoBudget
-  /\ dialTo' = << >> /\ replied' = {} /\ plan' = e.ops /\ over' = FALSE
+  /\ dialTo' = << >> /\ replied' = {} /\ wrote' = {} /\ plan' = e.ops /\ over' = FALSE
 
-Keep == UNCHANGED <<dialTo, replied, plan, over>>
+Keep == UNCHANGED <<dialTo, replied, wrote, plan, over>>
 Skip == UNCHANGED mvars /\ Keep
 Fr == UNCHANGED cf
 
@@ -108,24 +110,34 @@ PlanOf(o) == LET S == { i \in DOMAIN plan : plan[i].o = o } IN
              IF S = {} THEN [deadlineMs |-> 0] ELSE plan[CHOOSE i \in S : TRUE]
 
 Legs == 1 .. 4
+\* calls in progress (quantifying over these instead of Reqs keeps the evaluation of a step cheap)
+Active == { r \in Reqs : rq[r].pc \notin {"new", "done"} }
 CurLeg(c) == M!LegsR(conns[c].cur[1])[conns[c].cur[2]]
 
+\* The decision to connect is a silent step that precedes the dial made by the connecting goroutine. Journals number
+\* the connections in dial order: the model's connection takes the number of the first coming dial (from the
+\* current line on) to a broker of its group that no earlier decision has taken.
+Window == l .. (IF Len(Trace) < l + 150 THEN Len(Trace) ELSE l + 150)
+DialFor(g) ==
+  LET K == { k \in Window : /\ Trace[k].ev = "dial" /\ Trace[k].ok /\ conns[Trace[k].conn].st = "none"
+                            /\ IF g = 0 THEN Trace[k].broker \in cf.boot ELSE Trace[k].broker = g } IN
+  IF K = {} THEN 0 ELSE CHOOSE k \in K : \A j \in K : k <= j
+Refused(g) ==
+  \E k \in Window : Trace[k].ev = "dial" /\ ~Trace[k].ok /\ (IF g = 0 THEN Trace[k].broker \in cf.boot ELSE Trace[k].broker = g)
+
+\* the dial of a connection the model decided to open: connection ids are given in dial order on both sides
 DialEv(e) ==
   IF e.ok
-    THEN /\ \/ \E r \in Reqs, i \in Legs : M!RouteConnect(r, i, e.conn)
-            \/ M!DiscConnect(e.conn)
-         /\ IF conns'[e.conn].grp = 0 THEN e.broker \in cf.boot ELSE conns'[e.conn].grp = e.broker
+    THEN /\ e.conn \in DOMAIN conns /\ conns[e.conn].st = "connecting" /\ e.conn \notin DOMAIN dialTo
+         /\ IF conns[e.conn].grp = 0 THEN e.broker \in cf.boot ELSE conns[e.conn].grp = e.broker
          /\ dialTo' = (e.conn :> e.broker) @@ dialTo
-         /\ Fr /\ UNCHANGED <<replied, plan, over>>
-    ELSE \/ (e.broker \in cf.boot /\ Skip)      \* the next bootstrap address is tried
-         \/ /\ \/ \E r \in Reqs, i \in Legs : (M!RouteConnectRefused(r, i) /\ M!Dest(r, i) \in {e.broker, 0})
-               \/ M!DiscConnectRefused
-            /\ Fr /\ Keep
+         /\ UNCHANGED mvars /\ UNCHANGED <<replied, wrote, plan, over>>
+    ELSE Skip      \* refused: the leg fails (silent RouteConnectRefused), or the next bootstrap address is tried
 
 \* the next request frame the journal shows on connection c (from the current line on): the hand-over of a
 \* connection to a leg is a silent step that precedes the write of the frame by the connection's goroutine
 NextApi(c) ==
-  LET K == { k \in l .. (IF Len(Trace) < l + 120 THEN Len(Trace) ELSE l + 120) :
+  LET K == { k \in Window :
                Trace[k].ev = "cwrite" /\ Trace[k].conn = c /\ Trace[k].api # "ApiVersions" } IN
   IF K = {} THEN "" ELSE Trace[CHOOSE k \in K : \A j \in K : k <= j].api
 
@@ -135,7 +147,8 @@ CWriteEv(e) ==
   IF e.api = "ApiVersions" THEN Skip
   ELSE /\ conns[c].st = "busy" /\ M!LegsR(conns[c].cur[1])[conns[c].cur[2]].api = e.api
        /\ conns[c].reqq # << >>
-       /\ Skip
+       /\ wrote' = wrote \cup {c}
+       /\ UNCHANGED mvars /\ UNCHANGED <<dialTo, replied, plan, over>>
 
 \* a broker received a request: it is the broker the model's connection leads to, the leg is the one the
 \* connection carries, the version is the negotiated one
@@ -146,7 +159,8 @@ ReqEv(e) ==
        /\ Head(conns[c].reqq) = <<(IF e.api = "Metadata" THEN 0 ELSE e.o), e.leg>>
        /\ conns[c].peer = e.broker
        /\ M!Neg(c, e.api) = e.v
-       /\ M!Serve(c)
+       \* (a version the fake cluster cannot answer: it drops the connection without executing the request)
+       /\ IF e.unserved THEN M!Cut(c) ELSE M!Serve(c)
        /\ Fr /\ Keep
 
 \* what the broker answered to a metadata request is the model's view of the cluster
@@ -159,11 +173,11 @@ ReplyEv(e) ==
   LET c == e.conn  failed == e.closed \/ e.cut >= 0 IN
   IF e.api = "ApiVersions"
     THEN IF failed THEN M!ConnectFail(c) /\ Fr /\ Keep
-         ELSE replied' = replied \cup {c} /\ UNCHANGED mvars /\ UNCHANGED <<dialTo, plan, over>>
-    ELSE IF failed THEN M!Cut(c) /\ Fr /\ Keep
+         ELSE replied' = replied \cup {c} /\ UNCHANGED mvars /\ UNCHANGED <<dialTo, wrote, plan, over>>
+    ELSE IF failed THEN (IF conns[c].cut THEN Skip ELSE M!Cut(c) /\ Fr /\ Keep)
     ELSE /\ e.api = "Metadata" => (conns[c].wire # << >> /\ SameView(e, conns[c].wire[Len(conns[c].wire)].meta))
          /\ replied' = replied \cup {c}
-         /\ UNCHANGED mvars /\ UNCHANGED <<dialTo, plan, over>>
+         /\ UNCHANGED mvars /\ UNCHANGED <<dialTo, wrote, plan, over>>
 
 MoveEv(e) ==
   /\ CASE e.kind = "leader" -> IF cl.leader[<<e.t, e.p>>] = e.to THEN UNCHANGED mvars ELSE M!LeaderMove(<<e.t, e.p>>, e.to) /\ Fr
@@ -222,31 +236,49 @@ Step(e) ==
          [] e.ev = "opend" -> EndEv(e)
          [] e.ev = "closeidle" -> M!CloseIdle /\ Fr /\ Keep
          [] e.ev = "cclose" -> CCloseEv(e)
-         [] e.ev = "end" -> UNCHANGED mvars /\ over' = TRUE /\ UNCHANGED <<dialTo, replied, plan>>
+         [] e.ev = "end" -> UNCHANGED mvars /\ over' = TRUE /\ UNCHANGED <<dialTo, replied, wrote, plan>>
          [] OTHER -> Skip
 
-\* steps of the model that leave no mark in the journal
-Silent ==
-  /\ ~over
-  /\ \/ \E r \in Reqs : \/ (M!GrabState(r) /\ rq'[r].pc = "run")
-                         \/ M!Wake(r) \/ M!AwaitRefresh(r)
-                         \/ (M!RefreshDone(r) /\ rq'[r].pc = "refresh")
-                         \/ (PlanOf(r).deadlineMs > 0 /\ M!Cancel(r, "deadline"))
-                         \/ \E i \in Legs : \/ M!RouteFail(r, i)
-                                            \/ \E c \in DOMAIN dialTo : (M!RouteGrab(r, i, c) /\ NextApi(c) = rq[r].legs[i].api)
-     \/ \E c \in DOMAIN dialTo :
-          \/ (c \in replied /\ M!ExchangeOK(c))
-          \/ M!ExchangeFail(c)
-          \/ (M!DiscGrab(c) /\ NextApi(c) = "Metadata")
-          \/ (/\ c \in replied /\ M!ConnectDone(c, dialTo[c])
-              /\ conns'[c].st = "busy" => NextApi(c) = M!LegsR(conns'[c].cur[1])[conns'[c].cur[2]].api)
-          \/ (M!PeersOf(conns[c].grp) = {} /\ M!ConnectFail(c))
-     \/ M!Update
+\* Steps of the model that leave no mark in the journal.
+\* Urgent ones are taken as soon as they are enabled, before anything else: they are internal to the library,
+\* nothing observable can happen between their cause and them that they do not commute with (the client noticing
+\* that a connection was lost, update() after the metadata answer was read, entering the refresh wait).
+Urgent ==
+  \/ \E c \in DOMAIN dialTo : \/ (c \in wrote /\ (conns[c].cut \/ conns[c].peerDown) /\ M!ExchangeFail(c))
+                               \/ (conns[c].st = "connecting" /\ M!PeersOf(conns[c].grp) = {} /\ M!ConnectFail(c))
+  \/ M!Update
+  \/ \E r \in Active : M!AwaitRefresh(r)
+
+Floating ==
+  \/ \E r \in Active : \/ (M!GrabState(r) /\ rq'[r].pc = "run")
+                        \/ M!Wake(r)
+                        \/ (M!RefreshDone(r) /\ rq'[r].pc = "refresh")
+                        \/ (rq[r].cancelled = "no" /\ PlanOf(r).deadlineMs > 0 /\ M!Cancel(r, "deadline"))
+                        \/ \E i \in Legs : \/ M!RouteFail(r, i)
+                                           \/ \E c \in DOMAIN dialTo : (M!RouteGrab(r, i, c) /\ NextApi(c) = rq[r].legs[i].api)
+                                           \/ (/\ M!CanRoute(r, i) /\ M!Dest(r, i) >= 0 /\ DialFor(M!Dest(r, i)) # 0
+                                               /\ M!RouteConnect(r, i, Trace[DialFor(M!Dest(r, i))].conn))
+                                           \/ (/\ M!CanRoute(r, i) /\ M!Dest(r, i) >= 0 /\ Refused(M!Dest(r, i))
+                                               /\ M!RouteConnectRefused(r, i))
+  \/ \E c \in DOMAIN dialTo :
+       \/ (c \in replied /\ M!ExchangeOK(c))
+       \/ (~(c \in wrote /\ (conns[c].cut \/ conns[c].peerDown)) /\ M!ExchangeFail(c))
+       \/ (M!DiscGrab(c) /\ NextApi(c) = "Metadata")
+       \/ (/\ c \in replied /\ M!ConnectDone(c, dialTo[c])
+           /\ conns'[c].st = "busy" => NextApi(c) = M!LegsR(conns'[c].cur[1])[conns'[c].cur[2]].api)
+  \/ (DialFor(0) # 0 /\ M!DiscConnect(Trace[DialFor(0)].conn))
+  \/ (Refused(0) /\ M!DiscConnectRefused)
+
+SilentFrame ==
   /\ replied' = { c \in replied : conns'[c].st = "connecting" \/ (conns'[c].st = "busy" /\ conns'[c].wire # << >>) }
+  /\ wrote' = { c \in wrote : conns'[c].st = "busy" }
   /\ Fr /\ UNCHANGED <<l, dialTo, plan, over>>
 
-TNext == \/ (l <= Len(Trace) /\ l' = l + 1 /\ Step(Trace[l]))
-         \/ (l <= Len(Trace) /\ Silent)
+TNext ==
+  IF ~over /\ l <= Len(Trace) /\ Trace[l].ev # "cfg" /\ ENABLED Urgent
+    THEN Urgent /\ SilentFrame
+    ELSE \/ (l <= Len(Trace) /\ l' = l + 1 /\ Step(Trace[l]))
+         \/ (l <= Len(Trace) /\ ~over /\ Floating /\ SilentFrame)
 TSpec == TInit /\ [][TNext]_tvars
 
 \* the furthest line reached, and (for diagnosis) a summary of one model state that reached it
